@@ -3,5 +3,5 @@ CONSTANTS
   MaxLen = 4
   Alphabet <- MCAlphabet
   KeywordSample <- AllKeywords
-INVARIANTS RefSatisfiable NameWF SitesAgreeCode Emit
+INVARIANTS SitesAgreeMixed
 CHECK_DEADLOCK FALSE
